@@ -27,7 +27,7 @@ def gen_cases(ctx):
     """list of (op, fmt, rm, args)"""
     rng = ctx.rng
     cases = []
-    mult = ctx.pick(1, 10)
+    mult = ctx.pick(1, 30)
     for fmt in "FD":
         B = P.boundary_bits(fmt)
         OB = P.boundary_bits(P.other(fmt))
